@@ -23,6 +23,34 @@ WRAPS_A = ["pthread_mutex_trylock", "pthread_rwlock_tryrdlock", "pthread_rwlock_
            "getrlimit64", "pthread_attr_setstacksize", "clock_gettime", "pthread_cond_timedwait"]
 WRAPS_S = ["pthread_mutex_lock", "pthread_mutex_trylock", "pthread_mutex_unlock", "pthread_cond_wait",
            "pthread_cond_signal", "pthread_cond_broadcast"]
+WRAPS_P = ["pthread_mutex_init", "pthread_mutex_destroy", "pthread_mutex_lock", "pthread_mutex_trylock",
+           "pthread_mutex_unlock", "pthread_rwlock_init", "pthread_rwlock_destroy", "pthread_rwlock_rdlock",
+           "pthread_rwlock_tryrdlock", "pthread_rwlock_wrlock", "pthread_rwlock_trywrlock", "pthread_rwlock_unlock",
+           "sem_init", "sem_destroy", "sem_post", "sem_wait", "sem_trywait", "pthread_cond_destroy",
+           "pthread_cond_signal", "pthread_cond_broadcast", "pthread_cond_wait", "pthread_cond_timedwait",
+           "pthread_once", "pthread_key_create", "pthread_key_delete", "pthread_getspecific", "pthread_setspecific",
+           "pthread_join", "pthread_barrier_init", "pthread_barrier_wait", "pthread_barrier_destroy"]
+# what the real-concurrency monitor (harness/c20_conc.c) must print, and what each entry means
+CONC_EXPECT = [
+    ("readers_inside_at_once", "4", "uv_rwlock_rdlock does not admit concurrent readers: only %s of 4 readers were inside together"),
+    ("trywr_with_readers", "-16", "uv_rwlock_trywrlock returned %s while 4 readers hold the lock"),
+    ("tryrd_with_readers", "0", "uv_rwlock_tryrdlock returned %s with only readers inside"),
+    ("tryrd_with_writer", "-16", "uv_rwlock_tryrdlock returned %s while a writer holds the lock"),
+    ("mutex_overlaps", "0", "%s overlapping critical sections under uv_mutex_lock/trylock"),
+    ("trylock_held", "-16", "uv_mutex_trylock on a held mutex returned %s"),
+    ("recursive_nests", "0,0", "recursive mutex does not nest / is not released: %s"),
+    ("sem_passed_before_posts", "3", "semaphore of initial value 3 let %s waiters through before any post"),
+    ("trywait_at_zero", "-11", "uv_sem_trywait at value zero returned %s"),
+    ("sem_passed_after_posts", "6", "%s of 6 waiters passed after 3 + 3 posts"),
+    ("once_guards_not_run_exactly_once", "0", "uv_once ran its function not exactly once for %s of 200 raced guards"),
+    ("barrier_early_leavers", "0", "%s threads left uv_barrier_wait before all 4 had arrived"),
+    ("barrier_rounds_without_exactly_one_nonzero", "0", "%s barrier rounds without exactly one non-zero return"),
+    ("key_values_not_private", "0", "uv_key values leaked between threads (%s observations)"),
+    ("join_before_entry_finished", "0", "uv_thread_join returned before the entry function finished (%s times)"),
+    ("signal_woken", "1,relock=-16", "uv_cond_signal: waiter woken,mutex held again = %s"),
+    ("broadcast_woken", "1,relock=-16", "uv_cond_broadcast: waiter woken,mutex held again = %s"),
+    ("watchdog_expired", "0", "a rendezvous never completed (watchdog expired: %s)"),
+]
 KEY_TIMED = "cond_timedwait_timeout_wraps"
 # Which model uv_cond_timedwait is compared with: "timed" = the current code (timeout += hrtime
 # wraps), "timedfix" = the saturating variant of notes/C20_fix_timedwait.diff.  Switch the default
@@ -343,6 +371,8 @@ def main():
         hbar = vf.cc_harness(chk.scratch, "c20_barrier", ["c20_barrier.c"], lib=lib, wraps=WRAPS_S)
         hsem = vf.cc_harness(chk.scratch, "c20_sem", ["c20_sem.c"], lib=lib,
                              wraps=WRAPS_S + ["gnu_get_libc_version"])
+        hpass = vf.cc_harness(chk.scratch, "c20_pass", ["c20_pass.c"], lib=lib, wraps=WRAPS_P)
+        hconc = vf.cc_harness(chk.scratch, "c20_conc", ["c20_conc.c"], lib=lib)
         model = vf.model_bin("C20")
         info, rc, _ = vf.run_lines([hwrap, "info"], [])
         page, psm = int(info[0].split()[0]), int(info[0].split()[1])
@@ -371,6 +401,45 @@ def main():
                                                                       mon(case, a[0]) if a else None))
         chk.scratch.cleanup()
         sys.exit(0)
+
+    # (f) pass-through table: which pthread function each wrapper calls, on which object
+    names, _, _ = vf.run_lines([model, "pass"], ["?"])
+    pc = names[0].split() if names else []
+    a, b = both("pass", pc, [hpass], shards=1)
+
+    def pass_monitor(case, line):
+        return "%s calls %s (expected exactly one call of the mapped pthread function on the same object)" \
+            % (case, line) if sum(1 for x in line.split() if x.endswith(":1")) != 1 or not line.endswith(":1") else None
+    vf.diff_cases(chk, "thread.c wrappers -> pthread calls = Model/Thread.v passthrough", pc, a, b, pass_monitor)
+    chk.cov["passthrough_wrappers"] = len(pc)
+    if len(pc) != 32:
+        chk.violation("pass-through table has %d entries, 32 expected" % len(pc), {"kind": "correspondence"}, found_input=False)
+
+    # (g) MONITOR-ONLY: real contention, invariant counters (no model involved)
+    import concurrent.futures, subprocess
+    runs = 12 if thorough else 4
+
+    def conc_once(_):
+        try:
+            r = subprocess.run([hconc], stdout=subprocess.PIPE, stderr=subprocess.STDOUT, text=True, timeout=120)
+            return r.stdout.strip() if r.returncode == 0 else "crashed rc=%d %s" % (r.returncode, r.stdout[-200:])
+        except subprocess.TimeoutExpired:
+            return "timeout"
+    with concurrent.futures.ThreadPoolExecutor(4) as ex:
+        outs = list(ex.map(conc_once, range(runs)))
+    reported = set()
+    for o in outs:
+        kv = dict(x.split("=", 1) for x in o.split() if "=" in x)
+        chk.count("conc", o)
+        for key, want, msg in CONC_EXPECT:
+            got = kv.get(key, "missing (%s)" % o[:80])
+            if got != want and key not in reported:
+                reported.add(key)
+                chk.violation("real-concurrency monitor: " + msg % got,
+                              {"kind": "monitor", "obligation": "real-concurrency monitor (no model)", "key": key,
+                               "expected": want, "got": got, "line": o}, found_input=True)
+    chk.corr("real-concurrency monitor (monitor-only, no model)", runs)
+    chk.sample({"concurrency_monitor": outs[0] if outs else None})
 
     # (a) return-code maps
     cc = corpus("codes.txt") + codes_cases(chk.rng, thorough)
@@ -419,7 +488,7 @@ def main():
              "barrier/semaphore: random schedules (uniform and bursty, with spurious wake-ups and signal choices) "
              "with a round-robin tail, compared step by step; non-trivial = distinct (case, implementation trace)",
         trusted=["Coq 8.16.1 kernel (coqc)", "ExtrOcamlBasic extraction + OCaml 4.13.1 + zarith glue (ocaml/zutil.ml, drv_c20.ml)",
-                 "harness/c20_wrap.c, c20_sched.h (serialising scheduler), c20_barrier.c, c20_sem.c, checks/c20.py",
+                 "harness/c20_wrap.c, c20_sched.h (serialising scheduler), c20_barrier.c, c20_sem.c, c20_pass.c, c20_conc.c, checks/c20.py",
                  "gcc 12, glibc 2.36 pthread (mutual exclusion, wake-up, fairness of the real primitives are assumed)"],
         explanation="partial: the logic libuv adds (code maps, stack rounding, deadline arithmetic, fallback barrier, "
                     "custom semaphore) is proved and tied to the code; mutual exclusion/fairness/wake-up of pthread "
